@@ -312,7 +312,7 @@ func (e *specEnv) evalBinary(s *SpecExpr) (Term, types.Type) {
 		mh := x.mapHeap(mm)
 		ks, vs := mh.ks, mh.vs
 		_, _ = ks, vs
-		return sel(sel(x.heapGet(e.st, mh.has, arraySort(SInt, arraySort(ks, SBool))), m), k), boolT
+		return and(not(eq(m, intLit(0))), sel(sel(x.heapGet(e.st, mh.has, arraySort(SInt, arraySort(ks, SBool))), m), k)), boolT
 	}
 	a, ta := e.eval(s.Args[0])
 	b, tb := e.eval(s.Args[1])
@@ -482,7 +482,7 @@ func (e *specEnv) evalIndex(s *SpecExpr) (Term, types.Type) {
 		mh := x.mapHeap(u)
 		ks, vs := mh.ks, mh.vs
 		_, _ = ks, vs
-		has := sel(sel(x.heapGet(e.st, mh.has, arraySort(SInt, arraySort(ks, SBool))), b), i)
+		has := and(not(eq(b, intLit(0))), sel(sel(x.heapGet(e.st, mh.has, arraySort(SInt, arraySort(ks, SBool))), b), i))
 		val := sel(sel(x.heapGet(e.st, mh.val, arraySort(SInt, arraySort(ks, vs))), b), i)
 		return ite(has, val, x.zero(u.Elem())), u.Elem()
 	case *types.Slice:
@@ -517,7 +517,7 @@ func (e *specEnv) evalCall(s *SpecExpr) (Term, types.Type) {
 				ks, vs := mh.ks, mh.vs
 				_, _ = ks, vs
 				has := sel(x.heapGet(e.st, mh.has, arraySort(SInt, arraySort(ks, SBool))), v)
-				return x.mapCard(has), intT
+				return ite(eq(v, intLit(0)), intLit(0), x.mapCard(has)), intT
 			}
 			e.fail("len of %s", t)
 		case "allocated":
@@ -602,6 +602,16 @@ func (e *specEnv) evalCall(s *SpecExpr) (Term, types.Type) {
 				idx = 2
 			}
 			return e.nthResult(args[0], idx)
+		case "allPtrFieldsSet":
+			return e.allPtrFieldsSet(args[0]), boolT
+		case "fieldwise":
+			if args[0].Kind != "ident" {
+				e.fail("fieldwise(kind, src, dest)")
+			}
+			return e.fieldwise(args[0].Name, args[1], args[2]), boolT
+		case "zero":
+			t := x.resolveType(e.pkg, specTypeText(args[0]))
+			return x.zero(t), t
 		case "exited":
 			return e.ghostBool("exited"), boolT
 		}
@@ -677,6 +687,8 @@ func (e *specEnv) nthResult(call *SpecExpr, idx int) (Term, types.Type) {
 
 func specTypeText(s *SpecExpr) string {
 	switch s.Kind {
+	case "type":
+		return s.Val
 	case "ident":
 		return s.Name
 	case "unary":
@@ -781,4 +793,153 @@ func (x *Exec) funcEnv(st *State) *specEnv {
 		env.binds[v.Name()] = bound{x.paramTerms[i], v.Type()}
 	}
 	return env
+}
+
+// structFieldsOf returns the struct info and a reader for the fields of a struct value or pointer.
+func (e *specEnv) structFieldsOf(s *SpecExpr, env *specEnv) (*structInfo, func(i int) Term) {
+	x := e.x
+	v, t := env.eval(s)
+	t = x.subst(types.Unalias(t))
+	if p, ok := t.Underlying().(*types.Pointer); ok {
+		si := x.structOf(p.Elem())
+		return si, func(i int) Term {
+			f := &si.Fields[i]
+			return sel(x.heapGet(env.st, fieldHeapName(si, f), arraySort(SInt, f.Sort)), v)
+		}
+	}
+	si := x.structOf(t)
+	return si, func(i int) Term { return x.structField(v, si, i) }
+}
+
+// allPtrFieldsSet(v): every pointer-typed field of the struct (value or pointer) is non-nil.
+// The field list comes from go/types on every run (DESIGN.md A.3 "wf").
+func (e *specEnv) allPtrFieldsSet(s *SpecExpr) Term {
+	si, get := e.structFieldsOf(s, e)
+	var cs []Term
+	if _, t := e.eval(s); t != nil {
+		if _, ok := e.x.subst(types.Unalias(t)).Underlying().(*types.Pointer); ok {
+			v, _ := e.eval(s)
+			cs = append(cs, not(eq(v, intLit(0))))
+		}
+	}
+	for i, f := range si.Fields {
+		if _, ok := f.Type.Underlying().(*types.Pointer); ok {
+			cs = append(cs, not(eq(get(i), intLit(0))))
+		}
+	}
+	return and(cs...)
+}
+
+// fieldwise(kind, src, dest): the per-field postcondition schema of a hierarchical merge
+// (DESIGN.md 6 C08), instantiated for every field of the struct from go/types:
+//
+//	ptr      pointer fields: the more specific level (dest) wins; otherwise a fresh copy of src's value
+//	zeroable slices and maps other than map[string]any: dest if set, else src
+//	strmap   map[string]any fields: key-by-key merge, dest wins
+func (e *specEnv) fieldwise(kind string, src, dest *SpecExpr) Term {
+	parts := e.fieldwiseParts(kind, src, dest)
+	var cs []Term
+	for _, p := range parts {
+		cs = append(cs, p.T)
+	}
+	return and(cs...)
+}
+
+type fieldPart struct {
+	Name string
+	T    Term
+}
+
+func (e *specEnv) fieldwiseParts(kind string, src, dest *SpecExpr) []fieldPart {
+	x := e.x
+	if e.old == nil {
+		e.fail("fieldwise needs a pre-state")
+	}
+	old := e.inOld()
+	si, srcGet := e.structFieldsOf(src, old)
+	_, newGet := e.structFieldsOf(dest, e)
+	_, oldGet := e.structFieldsOf(dest, old)
+	var parts []fieldPart
+	var cs []Term
+	flush := func(name string) {
+		if len(cs) > 0 {
+			parts = append(parts, fieldPart{name, and(cs...)})
+			cs = nil
+		}
+	}
+	for i, f := range si.Fields {
+		ft := x.subst(types.Unalias(f.Type))
+		fname := f.Name
+		_ = fname
+		switch u := ft.Underlying().(type) {
+		case *types.Pointer:
+			if kind != "ptr" {
+				continue
+			}
+			n, o, sv := newGet(i), oldGet(i), srcGet(i)
+			elemS := x.sortOf(u.Elem())
+			hNew := x.heapGet(e.st, ptrHeapName(elemS), arraySort(SInt, elemS))
+			hOld := x.heapGet(old.st, ptrHeapName(elemS), arraySort(SInt, elemS))
+			wasSet := not(eq(o, intLit(0)))
+			parts = append(parts, fieldPart{fname, and(
+				not(eq(n, intLit(0))),
+				eq(sel(hNew, n), ite(wasSet, sel(hOld, o), sel(hOld, sv))),
+				implies(wasSet, eq(n, o)),
+				implies(not(wasSet), and(mk(SBool, "<=", old.st.alloc, n), mk(SBool, "<", n, e.st.alloc))))})
+		case *types.Map:
+			isStrMap := false
+			if b, ok := u.Key().Underlying().(*types.Basic); ok && b.Kind() == types.String {
+				if it, ok := u.Elem().Underlying().(*types.Interface); ok && it.Empty() {
+					isStrMap = true
+				}
+			}
+			n, o, sv := newGet(i), oldGet(i), srcGet(i)
+			if isStrMap {
+				if kind != "strmap" {
+					continue
+				}
+				mh := x.mapHeap(u)
+				HN := x.heapGet(e.st, mh.has, arraySort(SInt, arraySort(mh.ks, SBool)))
+				VN := x.heapGet(e.st, mh.val, arraySort(SInt, arraySort(mh.ks, mh.vs)))
+				HO := x.heapGet(old.st, mh.has, arraySort(SInt, arraySort(mh.ks, SBool)))
+				VO := x.heapGet(old.st, mh.val, arraySort(SInt, arraySort(mh.ks, mh.vs)))
+				wasSet := not(eq(o, intLit(0)))
+				in := func(H, m Term) string {
+					return fmt.Sprintf("(and (not (= %s 0)) (select (select %s %s) k))", m.S, H.S, m.S)
+				}
+				val := func(H, V, m Term) string {
+					return fmt.Sprintf("(ite %s (select (select %s %s) k) 0)", in(H, m), V.S, m.S)
+				}
+				parts = append(parts, fieldPart{fname, and(
+					not(eq(n, intLit(0))),
+					implies(wasSet, eq(n, o)),
+					implies(not(wasSet), and(mk(SBool, "<=", old.st.alloc, n), mk(SBool, "<", n, e.st.alloc))),
+					Term{fmt.Sprintf("(forall ((k Str)) (= %s (or %s %s)))", in(HN, n), in(HO, o), in(HO, sv)), SBool},
+					Term{fmt.Sprintf("(forall ((k Str)) (=> %s (= %s %s)))", in(HO, o), val(HN, VN, n), val(HO, VO, o)), SBool},
+					Term{fmt.Sprintf("(forall ((k Str)) (=> (and %s (not %s)) (= %s %s)))", in(HO, sv), in(HO, o), val(HN, VN, n), val(HO, VO, sv)), SBool})})
+				continue
+			}
+			if kind != "zeroable" {
+				continue
+			}
+			parts = append(parts, fieldPart{fname, eq(n, ite(eq(o, intLit(0)), sv, o))})
+		case *types.Slice:
+			if kind != "zeroable" {
+				continue
+			}
+			n, o, sv := newGet(i), oldGet(i), srcGet(i)
+			parts = append(parts, fieldPart{fname, eq(n, ite(x.sliceNonNil(o), o, sv))})
+		default:
+			if kind != "zeroable" {
+				continue
+			}
+			n, o, sv := newGet(i), oldGet(i), srcGet(i)
+			parts = append(parts, fieldPart{fname, eq(n, ite(eq(o, x.zero(ft)), sv, o))})
+		}
+	}
+	_ = flush
+	if len(parts) == 0 && len(cs) == 0 {
+		e.fail("fieldwise(%s): no field of that kind", kind)
+	}
+	return parts
 }
